@@ -49,8 +49,38 @@ Section Tagged.
     n_argnums : list nat;
     n_parents : list nat }.
 
-  (* trace_stack.top and the heap of VJPNodes *)
-  Record state := { top : Z; store : list vnode }.
+  (* trace_stack.top, the heap of VJPNodes, and - for the thread model - the
+     interference this thread observes on the shared counter: at each of its
+     trace entry/exit events the counter has moved by the next element of
+     `noise` (net entries minus exits, or ids drawn, by other threads since this
+     thread's previous event); [] = running alone *)
+  Record state := { top : Z; store : list vnode; noise : list Z }.
+
+  (* how new_trace picks ids: the pinned tree's shared depth counter
+     (top += 1 ... top -= 1 on normal exit), or a strictly increasing supply
+     that is never decremented *)
+  Inductive supply := Depth | Mono.
+  Variable sup : supply.
+
+  Definition draw (s : state) : Z * state :=
+    match noise s with
+    | [] => (0%Z, s)
+    | d :: r => (d, {| top := top s; store := store s; noise := r |})
+    end.
+
+  (* with new_trace() as t: *)
+  Definition enter (s : state) : Z * state :=
+    let '(d, s') := draw s in
+    let t := (top s' + d + 1)%Z in
+    (t, {| top := t; store := store s'; noise := noise s' |}).
+
+  (* normal exit of the with-block *)
+  Definition leave (s : state) : state :=
+    match sup with
+    | Depth => let '(d, s') := draw s in
+               {| top := (top s' + d - 1)%Z; store := store s'; noise := noise s' |}
+    | Mono => s
+    end.
 
   Inductive outcome (A : Type) :=
   | Val (a : A)
@@ -222,7 +252,7 @@ Section Tagged.
                              n_ans := ans; n_argnums := map fst bx;
                              n_parents := parents |} in
               ret (VBox t ans (NV (length (store s1))))
-                  {| top := top s1; store := store s1 ++ [node] |}
+                  {| top := top s1; store := store s1 ++ [node]; noise := noise s1 |}
             end
           | KJ =>
             match as_nj bx with
@@ -342,10 +372,10 @@ Section Tagged.
         bind (eval f env arg s) (fun x s1 =>
           (* make_vjp: VJPNode.new_root(); with new_trace() as t *)
           let r := length (store s1) in
-          let t := (top s1 + 1)%Z in
-          let s2 := {| top := t; store := store s1 ++ [root_node] |} in
+          let '(t, se) := enter s1 in
+          let s2 := {| top := top se; store := store se ++ [root_node]; noise := noise se |} in
           bind (eval f (VBox t x (NV r) :: env) body s2) (fun endv s3 =>
-            let s4 := {| top := (top s3 - 1)%Z; store := store s3 |} in
+            let s4 := leave s3 in
             match endv with
             | VBox t' ev (NV en) =>
               if Z.eqb t' t then backward_pass f (VNum k1) en s4
@@ -356,10 +386,9 @@ Section Tagged.
             end))
       | Deriv body arg =>
         bind (eval f env arg s) (fun x s1 =>
-          let t := (top s1 + 1)%Z in
-          let s2 := {| top := t; store := store s1 |} in
+          let '(t, s2) := enter s1 in
           bind (eval f (VBox t x (NJ (VNum k1)) :: env) body s2) (fun endv s3 =>
-            let s4 := {| top := (top s3 - 1)%Z; store := store s3 |} in
+            let s4 := leave s3 in
             match endv with
             | VBox t' ev (NJ tg) =>
               if Z.eqb t' t then ret tg s4 else ret (VNum k0) s4
@@ -370,7 +399,7 @@ Section Tagged.
       end
     end.
 
-  Definition init_state : state := {| top := (-1)%Z; store := [] |}.
+  Definition init_state : state := {| top := (-1)%Z; store := []; noise := [] |}.
 End Tagged.
 
 Arguments Val {A} _.
